@@ -512,6 +512,82 @@ def check_star(ns, res):
         res.violation({"star": "object"}, [{"problem": f"ostar.meth > v failed with {type(ex).__name__}: {ex} (expected a SelectorError or a working probe)"}])
 
 
+SIB_SRC = """
+class Box:
+    def __init__(self, k):
+        self.k = k
+    def left(self, q):
+        l = q + self.k
+        return l
+    def right(self, x):
+        v = x * 10 + self.k
+        return v
+
+def pair(a, b, t):
+    r1 = a.left(t)
+    r2 = b.right(t + 1)
+    return r1 + r2
+"""
+
+
+def check_siblings(spec, res):
+    """Two receiver conditions side by side under one call: pair(t, oI.left(q), oJ.right(!v)) observes
+    the binding of v exactly in the calls pair(oI, oJ, t), for every ordered pair of instances (the two
+    receiver parameters are both called self)."""
+    from ptera import probing
+
+    import importlib.util
+
+    path = os.path.join(spec["scratch"], "c13sib.py")
+    with open(path, "w") as f:
+        f.write(SIB_SRC)
+    sp = importlib.util.spec_from_file_location("c13sib", path)
+    mod = importlib.util.module_from_spec(sp)
+    sp.loader.exec_module(mod)
+    env = dict(vars(mod))
+    objs = [mod.Box(1), mod.Box(2), mod.Box(3)]
+    for n, o in enumerate(objs):
+        env[f"b{n}"] = o
+    combos = [(i, j) for i in range(3) for j in range(3)]
+    for (i, j) in combos:
+        for second in (None, combos[(combos.index((i, j)) + 4) % 9]):
+            res.evaluations += 1
+            res.deciding += 1
+            wanted = [(i, j)] + ([second] if second else [])
+            texts = [f"pair(t, b{a}.left(q), b{b}.right(!v))" for a, b in wanted]
+            outs = [[] for _ in wanted]
+            exps = [[] for _ in wanted]
+            case = {"siblings": texts}
+            try:
+                ps = [probing(t, env=env) for t in texts]
+                for p, o in zip(ps, outs):
+                    p.subscribe(o.append)
+                    p.__enter__()
+                try:
+                    for t in (1, 5):
+                        for (a, b) in combos:
+                            r = mod.pair(objs[a], objs[b], t)
+                            if r != t + objs[a].k + (t + 1) * 10 + objs[b].k:
+                                res.violation(case, [{"problem": f"pair(b{a}, b{b}, {t}) returned {r}"}])
+                            for w, e in zip(wanted, exps):
+                                if w == (a, b):
+                                    e.append({"t": t, "q": t, "v": (t + 1) * 10 + objs[b].k})
+                        objs[0].left(t)  # outside pair: never matches
+                        objs[1].right(t)
+                finally:
+                    for p in reversed(ps):
+                        p.__exit__(None, None, None)
+            except Exception as ex:
+                res.violation(case, [{"problem": "exception: " + common.fmt_exc(ex)}])
+                continue
+            for text, o, e in zip(texts, outs, exps):
+                got = [{k: ev.get(k) for k in ("t", "q", "v")} for ev in o]
+                if got != e:
+                    res.violation(case, [{"selector": text, "problem": "sibling receiver conditions: events differ", "expected": e, "got": got}])
+            res.count("sibling_receiver_probes", len(texts))
+            res.nontrivial_case(["siblings", texts])
+
+
 def run_shard(spec):
     res = ShardResult()
     known = set(spec.get("known", []))
@@ -524,6 +600,8 @@ def run_shard(spec):
             ns = load(spec["scratch"], f"{s0}_{n}")
             if n == 0:
                 check_star(ns, res)
+                if s0 == 0:
+                    check_siblings(spec, res)
         rnd = rng_for("C13", spec["seed"], i)
         case = gen_case(rnd)
         trig = has_trigger(case)
